@@ -155,7 +155,7 @@ func shortKey(key string) string {
 
 func (x *Exec) findCallEvent(key string) *EventSpec {
 	for _, ev := range x.sp.Events {
-		if ev.Kind == "call" && ev.Pkg == x.fn.pkgPath() && ev.Pattern == shortKey(key) {
+		if ev.Kind == "call" && ev.Pkg == x.fn.pkgPath() && ev.Pattern == shortKey(key) && (ev.In == "" || strings.HasSuffix(x.fn.key, "."+ev.In)) {
 			return ev
 		}
 	}
@@ -612,7 +612,7 @@ func matchPattern(pat ast.Expr, e ast.Expr, binds map[string]ast.Expr) bool {
 
 func (x *Exec) findEvent(kind string, ch ast.Expr) (*EventSpec, map[string]ast.Expr) {
 	for _, ev := range x.sp.Events {
-		if ev.Kind != kind || ev.Pkg != x.fn.pkgPath() {
+		if ev.Kind != kind || ev.Pkg != x.fn.pkgPath() || (ev.In != "" && !strings.HasSuffix(x.fn.key, "."+ev.In)) {
 			continue
 		}
 		if ev.Pattern == "" || ev.Pattern == "*" {
